@@ -206,6 +206,141 @@ fn build(r: &mut Rng, special: bool, out: &mut Out) -> Built {
     Built { store: s, desc }
 }
 
+/// A larger graph: 70-200 relationships (parallel ones, some with properties), built through
+/// the API and through Cypher, then relationships and old nodes deleted (ids are not reused
+/// afterwards, so the live ids are sparse and reach past 64), optionally compacted before or
+/// after the deletions. `node_heavy` creates 70-130 nodes and deletes most of them.
+fn build_big(r: &mut Rng, node_heavy: bool, out: &mut Out) -> Built {
+    let mut s = GraphStore::new();
+    let engine = QueryEngine::new();
+    let mut desc = Vec::new();
+    let n_nodes = if node_heavy { r.range(70, 130) } else { r.range(8, 20) };
+    let mut live: Vec<u64> = Vec::new();
+    let mut cy_nodes = 0;
+    for i in 0..n_nodes {
+        if i % 7 == 3 {
+            let q = format!("CREATE (n:{} {{i: {}}})", r.pick(&["A", "B"]), i);
+            let before: BTreeSet<u64> = s.all_nodes().iter().map(|n| n.id.as_u64()).collect();
+            if engine.execute_mut(&q, &mut s, "default").is_ok() {
+                out.count("cypher_statement");
+                cy_nodes += 1;
+                for n in s.all_nodes() {
+                    if !before.contains(&n.id.as_u64()) {
+                        live.push(n.id.as_u64());
+                    }
+                }
+                continue;
+            }
+        }
+        let labels: Vec<Label> = (0..r.below(3)).map(|_| Label::new(*r.pick(&LABELS))).collect();
+        let id = s.create_node_with_labels(labels);
+        let _ = s.set_node_property("default", id, "i", PropertyValue::Integer(i as i64));
+        live.push(id.as_u64());
+    }
+    desc.push(format!("{} nodes ({} by Cypher)", live.len(), cy_nodes));
+    let n_edges = r.range(100, 240);
+    let compact_mid = r.chance(1, 3);
+    let mut cy_edges = 0;
+    for k in 0..n_edges {
+        let a = *r.pick(&live);
+        // parallel relationships: reuse a small set of targets
+        let b = live[(r.below(4) as usize) % live.len()];
+        let b = if r.chance(1, 2) { b } else { *r.pick(&live) };
+        let t = *r.pick(&["R", "KNOWS", "T"]);
+        if k % 9 == 4 {
+            let q = format!("MATCH (a {{i: {}}}), (b {{i: {}}}) CREATE (a)-[:{} {{w: {}}}]->(b)", r.below(n_nodes), r.below(n_nodes), t, k);
+            if engine.execute_mut(&q, &mut s, "default").is_ok() {
+                out.count("cypher_statement");
+                cy_edges += 1;
+                continue;
+            }
+        }
+        match r.below(4) {
+            0 => {
+                let mut p = HashMap::new();
+                p.insert("w".to_string(), PropertyValue::Integer(k as i64));
+                if r.chance(1, 3) {
+                    p.insert("s".to_string(), PropertyValue::String(gen_string(r)));
+                }
+                let _ = s.create_edge_with_properties(NodeId::new(a), NodeId::new(b), t, p);
+            }
+            1 => {
+                let _ = s.create_edge_stub(NodeId::new(a), NodeId::new(b), t);
+            }
+            _ => {
+                let _ = s.create_edge(NodeId::new(a), NodeId::new(b), t);
+            }
+        }
+        if compact_mid && k == n_edges / 2 {
+            s.compact_adjacency();
+        }
+    }
+    let created_edges = s.all_edges().len();
+    desc.push(format!("{} relationships ({} by Cypher){}", created_edges, cy_edges, if compact_mid { ", compacted half way" } else { "" }));
+    if r.chance(1, 3) {
+        s.compact_adjacency();
+        desc.push("compacted before the deletions".into());
+        out.count("compacted");
+    }
+    // deletions, oldest ids first in the main: relationships ...
+    let mut eids: Vec<u64> = s.all_edges().iter().map(|e| e.id.as_u64()).collect();
+    eids.sort();
+    let del_e = (eids.len() as u64 * r.range(25, 60) / 100) as usize;
+    let mut deleted_e = 0;
+    for (j, eid) in eids.iter().enumerate() {
+        if deleted_e >= del_e {
+            break;
+        }
+        // mostly the old ids, a few of the newer ones
+        if j < del_e || r.chance(1, 10) {
+            if j % 11 == 5 {
+                // through Cypher, by the property that identifies it (if it has one)
+                if let Some(PropertyValue::Integer(w)) = s.get_edge(samyama::graph::EdgeId::new(*eid)).and_then(|e| e.properties.get("w").cloned()) {
+                    let q = format!("MATCH (a)-[r {{w: {}}}]->(b) DELETE r", w);
+                    if engine.execute_mut(&q, &mut s, "default").is_ok() {
+                        out.count("cypher_statement");
+                        deleted_e += 1;
+                        continue;
+                    }
+                }
+            }
+            if s.delete_edge(samyama::graph::EdgeId::new(*eid)).is_ok() {
+                deleted_e += 1;
+            }
+        }
+    }
+    // ... and nodes with everything attached (DETACH DELETE), old ids, never the newest
+    let mut nids: Vec<u64> = s.all_nodes().iter().map(|n| n.id.as_u64()).collect();
+    nids.sort();
+    let del_n = if node_heavy { nids.len() * r.range(55, 85) as usize / 100 } else { r.below(4) as usize };
+    let mut deleted_n = 0;
+    for (j, nid) in nids.iter().enumerate() {
+        if deleted_n >= del_n || j + 1 == nids.len() {
+            break;
+        }
+        if j % 5 == 2 {
+            let q = format!("MATCH (n {{i: {}}}) DETACH DELETE n", j);
+            let had = s.all_nodes().len();
+            if engine.execute_mut(&q, &mut s, "default").is_ok() {
+                out.count("cypher_statement");
+                deleted_n += had - s.all_nodes().len();
+                continue;
+            }
+        }
+        if s.delete_node("default", NodeId::new(*nid)).is_ok() {
+            deleted_n += 1;
+        }
+    }
+    desc.push(format!("deleted {} relationships and {} nodes", deleted_e, deleted_n));
+    out.count_n("deleted_node", deleted_n as u64);
+    if r.chance(1, 3) {
+        s.compact_adjacency();
+        desc.push("compacted after the deletions".into());
+        out.count("compacted");
+    }
+    Built { store: s, desc }
+}
+
 /// Run one store through export -> import(empty) and record the case.
 fn run_store(out: &mut Out, b: Built, tag: &str) {
     let idx = out.next_index();
@@ -261,6 +396,24 @@ fn run_store(out: &mut Out, b: Built, tag: &str) {
     }
     if !orig.hier.is_empty() {
         out.count("with_hierarchy");
+    }
+    // id-indexed structures: ids beyond one machine word of a bitset, and gaps left by deletes
+    let max_eid = orig.edges.iter().map(|e| e.id).max().unwrap_or(0);
+    let max_nid = orig.nodes.iter().map(|n| n.id).max().unwrap_or(0);
+    if max_eid >= 64 {
+        out.count("graphs_with_over_64_edge_ids");
+    }
+    if (max_eid / 64) as usize > orig.edges.len() / 64 {
+        out.count("edge_id_gaps_before_export");
+    }
+    if max_nid >= 64 {
+        out.count("graphs_with_over_64_node_ids");
+    }
+    if (max_nid / 64) as usize > orig.nodes.len() / 64 {
+        out.count("node_id_gaps_before_export");
+    }
+    if orig.edges.len() >= 70 {
+        out.count("graphs_with_70_or_more_relationships");
     }
     // the property itself, on the implementation
     let verdict: Result<(), String> = match res {
@@ -365,6 +518,14 @@ fn main() {
     out.rule = "export -> import into an empty store; dumps isomorphic (labels from the node and by lookup, merged properties by bit pattern, relationship bag, hierarchy declarations); exported records = model export; imported store = model import".into();
     replay_known(&mut out);
     targeted(&mut out);
+    // larger graphs with sparse ids (both tiers)
+    let n_big = if args.thorough { 120 } else { 32 };
+    for i in 0..n_big {
+        let mut r = Rng::for_case(args.seed ^ 0xb16, i);
+        let node_heavy = i % 2 == 1;
+        let b = build_big(&mut r, node_heavy, &mut out);
+        run_store(&mut out, b, if node_heavy { "big,node-heavy" } else { "big" });
+    }
     let n = if args.thorough { 6000 } else { 600 };
     for i in 0..n {
         let mut r = Rng::for_case(args.seed, i);
